@@ -645,12 +645,9 @@ class Registry:
         return (fi.file + "::" + fi.qual) in self.inline
 
     def may_inline(self, fi):
-        t = fi.file + "::" + fi.qual
-        if t in self.inline:
-            return True
-        if fi.kind in ("getter", "lambda", "nested"):
-            return True
-        return False
+        # functions without a contract are inlined (the verified text is then the caller's body plus the
+        # helper's body); recursion is cut by the engine's inline depth limit
+        return True
 
 
 class LoopCtx:
